@@ -331,7 +331,7 @@ func flattenScenarios(tier string, seed int64, scratch string) ([]*Case, []strin
 	sort.Slice(all, func(i, j int) bool { return all[i].Key() < all[j].Key() })
 	pickN := 400
 	if tier == "thorough" {
-		pickN = len(all)
+		pickN = 4000 // of the 21 160: every check of the family repeats the campaign, the seed rotates the sample
 	}
 	if v := os.Getenv("VERIF_SCEN"); v != "" {
 		if n, e := strconv.Atoi(v); e == nil {
